@@ -18,7 +18,7 @@ import (
 // ---- C10: the static shortcut is unobservable (engine B over histories) ----
 
 var c10Routes = []string{"/s", "/s/", "/s/t", "/s/?t", "/{p}", "/s/{p}", "/{m: **}", "/q/?r", "/"}
-var c10RegMethods = []string{"GET", "POST"}
+var c10RegMethods = []string{"GET", "POST", "*"}
 var c10HdrSets = [][]string{{}, {"X-K", "v"}}
 var c10Paths = []string{"/s", "//s", "/s/", "/s//", "/s/t", "/s/?t", "/q/?r", "/q", "/q/r", "/%73", "s", "", "/", "/s/t/", "/q/"}
 var c10ReqHdrs = []map[string]string{{}, {"X-K": "v"}}
@@ -52,7 +52,7 @@ type c10World struct {
 	f       *flamego.Flame
 	handles []*flamego.Route
 	trees   map[string]route.Tree // the same history through the plain tree API, no shortcut
-	leaves  []route.Leaf
+	leaves  [][]route.Leaf // per registration: the leaf of every method it covers
 	desc    []string
 	hitText string
 	hitPar  map[string]string
@@ -91,7 +91,17 @@ func c10Apply(p *route.Parser, ops []c10Op) (w *c10World, ok bool, bad string) {
 				return nil
 			}()
 			ast2, _ := p.Parse(op.Route)
-			leaf, terr, tpan := safeAddRoute(w.trees[op.Method], ast2)
+			var regLeaves []route.Leaf
+			var terr error
+			var tpan interface{}
+			for _, m := range c08MethodsOf(op.Method) {
+				var leaf route.Leaf
+				leaf, terr, tpan = safeAddRoute(w.trees[m], ast2)
+				if terr != nil || tpan != nil {
+					break
+				}
+				regLeaves = append(regLeaves, leaf)
+			}
 			if (pan != nil) != (terr != nil || tpan != nil) {
 				return w, false, fmt.Sprintf("registration verdict differs between Flame (%v) and the plain tree (%v %v)", pan, terr, tpan)
 			}
@@ -99,7 +109,7 @@ func c10Apply(p *route.Parser, ops []c10Op) (w *c10World, ok bool, bad string) {
 				return w, false, ""
 			}
 			w.handles = append(w.handles, handle)
-			w.leaves = append(w.leaves, leaf)
+			w.leaves = append(w.leaves, regLeaves)
 			w.desc = append(w.desc, op.Method+" "+text)
 		case "headers":
 			if op.Target >= len(w.handles) {
@@ -110,7 +120,9 @@ func c10Apply(p *route.Parser, ops []c10Op) (w *c10World, ok bool, bad string) {
 			for i := 0; i+1 < len(op.Pairs); i += 2 {
 				ms[op.Pairs[i]] = regexp.MustCompile(op.Pairs[i+1])
 			}
-			w.leaves[op.Target].SetHeaderMatcher(route.NewHeaderMatcher(ms))
+			for _, lf := range w.leaves[op.Target] {
+				lf.SetHeaderMatcher(route.NewHeaderMatcher(ms))
+			}
 			w.desc[op.Target] = strings.Split(w.desc[op.Target], " |")[0] + fmt.Sprintf(" |%v", op.Pairs)
 		}
 	}
